@@ -165,6 +165,24 @@ def _alias_verdict(ctx, cond, pol, sobj, depth=0):
         if len(defs) == 1:
             return _alias_verdict(ctx, defs[0].c[0], pol, sobj, depth + 1)
         return None
+    c1 = c.strip_all()
+    if c1.k == "CXXMemberCallExpr" and c1.callee and c1.callee.get("repo") and depth < 3 and ctx.prog is not None:
+        # a predicate of the slice over the source: _shares_storage(rhs) { return _base.data() == rhs._base.data(); }
+        obj = c1.call_object()
+        g = ctx.prog.functions.get(c1.callee.get("usr"))
+        if g is not None and (obj is None or obj.strip_all().k == "CXXThisExpr"):
+            rets = [x for x in g.walk() if x.k == "ReturnStmt" and x.c]
+            args = c1.call_args()
+            gso = None
+            for i, prm in enumerate(g.params):
+                if i < len(args) and any(r == sobj for r in ctx.flow.root(args[i])):
+                    gso = ("parm", prm["n"])
+            if len(rets) == 1 and gso is not None:
+                gctx = GuardCtx(ctx.prog, g, group_params=False)
+                vs = {_alias_verdict(gctx, a, p2, gso, depth + 1) for (a, p2) in atoms_of(rets[0].c[0], pol)}
+                vs.discard(None)
+                return vs.pop() if len(vs) == 1 else None
+        return None
     cmp_ = as_comparison(c)
     if cmp_ is None:
         return None
@@ -271,7 +289,9 @@ def rule_G3c(prog, fixture=False):
                 o = x.call_object()
                 if o is None or o.strip_all().k == "CXXThisExpr":
                     h = prog.functions.get(x.callee.get("usr"))
-                    if h is not None and h.usr != g.usr and _short(h.qn) != "operator=" and copy_effects(h, depth + 1):
+                    if _short(x.callee.get("qn")) == "operator=" and x.callee.get("usr") != g.usr:
+                        out.append(x)     # this->operator=(src): delegation to another assignment
+                    elif h is not None and h.usr != g.usr and _short(h.qn) != "operator=" and copy_effects(h, depth + 1):
                         out.append(x)     # a private helper that does the copying
         return out + _element_writes(g, gctx)
 
@@ -310,33 +330,56 @@ def rule_G3c(prog, fixture=False):
             if rl[0] not in f.reachable(f.entry, removed_blocks=removed):
                 res.add(key, DISCHARGED, where, what, "every path to it passes a copy into the slice", func=f.name, extra=extra)
                 continue
-            empty = same_vec = same_start = same_step = False
-            seen = []
-            # what holds on the paths that reach the return *without* a copy (edges out of the copying blocks taken away)
-            cut = [(b_, si) for b_ in removed for si in range(len(f.blocks[b_].succs))]
-            for fact in f.facts_at_block(rl[0], assume=cut):
-                if fact.belief:
+            # every path that reaches the return without a copy must be one on which there is nothing to copy: walk the CFG without
+            # the copying blocks, collecting what the branch outcomes on the way establish
+            edge_atoms = {}
+            for (b_, si, s_, cn, pol) in f.branch_edges():
+                edge_atoms[(b_.id, si)] = _expand_atoms(prog, cn, pol, 0)
+            bad_path = None
+            stack = [(f.entry, frozenset(), ())]
+            visited = set()
+            while stack and bad_path is None:
+                bid, flags, trail = stack.pop()
+                if (bid, flags) in visited:
                     continue
-                for (c, pol) in atoms_of(fact.cond, fact.pol):
-                    seen.append(("" if pol else "!") + c.text()[:40])
-                    if _says_empty(c, pol):
-                        empty = True
-                    if src and _alias_verdict(ctx, c, pol, src[0]) == "same":
-                        same_vec = True
-                    if _same_member(c, pol, ("_i1",)):
-                        same_start = True
-                    if _same_member(c, pol, ("_m", "stride")):
-                        same_step = True
-            if empty:
-                res.add(key, DISCHARGED, where, what, "reached only for an empty slice", func=f.name, extra=extra)
-            elif same_vec and same_start and same_step:
-                res.add(key, DISCHARGED, where, what, "reached only when source and destination are the same elements", func=f.name, extra=extra)
+                visited.add((bid, flags))
+                if bid == rl[0]:
+                    if not {"vec", "start", "step"} <= flags:
+                        bad_path = (flags, trail)
+                    continue
+                if bid in removed:
+                    continue
+                for si, s_ in enumerate(f.blocks[bid].succs):
+                    if s_ is None or s_ not in f.blocks:
+                        continue
+                    fl = set(flags)
+                    exempt = False
+                    tr = trail
+                    for (c, pol) in edge_atoms.get((bid, si), []):
+                        tr = tr + ((("" if pol else "!") + c.text()[:40]),)
+                        if _says_empty(c, pol):
+                            exempt = True
+                        if src and _alias_verdict(GuardCtx(prog, c.fn, group_params=False) if c.fn.usr != f.usr else ctx, c, pol,
+                                                  src[0] if c.fn.usr == f.usr else ("parm", "rhs")) == "same":
+                            fl.add("vec")
+                        if _same_member(c, pol, ("_i1",)):
+                            fl.add("start")
+                        if _same_member(c, pol, ("_m", "stride")):
+                            fl.add("step")
+                        if _same_object(c, pol):
+                            fl |= {"vec", "start", "step"}
+                    if not exempt:
+                        stack.append((s_, frozenset(fl), tr))
+            if bad_path is None:
+                res.add(key, DISCHARGED, where, what, "reached without a copy only for an empty slice or when source and destination are "
+                        "the same elements", func=f.name, extra=extra)
             else:
-                missing = [t for (t, v) in (("same storage", same_vec), ("same start", same_start), ("same step", same_step)) if not v]
+                flags, trail = bad_path
+                missing = [t for (t, k_) in (("same storage", "vec"), ("same start", "start"), ("same step", "step")) if k_ not in flags]
                 res.add(key, VIOLATED, where, what,
                         "this return is reached without anything having been copied into the slice, under %s: that is neither 'the slice "
                         "is empty' nor 'source and destination are the same elements' (%s not established) - the assignment is silently "
-                        "skipped for some right-hand sides" % (" && ".join(seen[:4]) or "no condition", ", ".join(missing)), func=f.name, extra=extra)
+                        "skipped for some right-hand sides" % (" && ".join(trail[-5:]) or "no condition", ", ".join(missing)), func=f.name, extra=extra)
     res.stats["returns"] = n
     return res
 
@@ -401,6 +444,47 @@ def _says_empty(c, pol):
             if (o == "==" and v == 0) or (o == "<" and v == 1) or (o == "<=" and v == 0):
                 return True
     return False
+
+
+def _expand_atoms(prog, cond, pol, depth):
+    """atoms of a branch outcome, with calls of single-return member predicates replaced by the atoms of what they return"""
+    out = []
+    for (c, p) in atoms_of(cond, pol):
+        c0 = c.strip_all()
+        g = None
+        if c0.k == "CXXMemberCallExpr" and c0.callee and c0.callee.get("repo") and depth < 2 and c0.tc == "bool":
+            obj = c0.call_object()
+            if obj is None or obj.strip_all().k == "CXXThisExpr":
+                g = prog.functions.get(c0.callee.get("usr"))
+        if g is not None:
+            rets = [x for x in g.walk() if x.k == "ReturnStmt" and x.c]
+            if len(rets) == 1:
+                out.append((c, p))
+                out += _expand_atoms(prog, rets[0].c[0], p, depth + 1)
+                continue
+        out.append((c, p))
+    return out
+
+
+def _same_object(c, pol):
+    """(this == &rhs) holds, rhs a parameter"""
+    cmp_ = as_comparison(c)
+    if cmp_ is None:
+        return False
+    l, op, r = cmp_
+    if not pol:
+        op = {"==": "!=", "!=": "=="}.get(op, op)
+    if op != "==":
+        return False
+
+    def is_this(e):
+        return e.strip_all().k == "CXXThisExpr"
+
+    def addr_of_parm(e):
+        e = e.strip_all()
+        return e.k == "UnaryOperator" and e.op == "&" and e.c and e.c[0].strip_all().k == "DeclRefExpr" \
+            and (e.c[0].strip_all().decl or {}).get("k") == "parm"
+    return (is_this(l) and addr_of_parm(r)) or (is_this(r) and addr_of_parm(l))
 
 
 def _same_member(c, pol, names):
@@ -769,11 +853,14 @@ def rule_G5(prog, fixture=False):
     # the constructor does not write the members they mention afterwards
     tbk = f.throw_blocks()
     for cnode in f.walk():
-        if not (cnode.k == "CXXMemberCallExpr" and cnode.callee and cnode.callee.get("cls") == f.cls and cnode.callee.get("repo")):
+        if not (cnode.k in ("CXXMemberCallExpr", "CallExpr") and cnode.callee and cnode.callee.get("cls") == f.cls and cnode.callee.get("repo")):
             continue
-        obj = cnode.call_object()
-        if obj is None or obj.strip_all().k != "CXXThisExpr":
-            continue
+        if cnode.k == "CXXMemberCallExpr":
+            obj = cnode.call_object()
+            if obj is None or obj.strip_all().k != "CXXThisExpr":
+                continue
+        elif not cnode.callee.get("static"):
+            continue              # a static member helper: _check_first(_i1, n)
         g = prog.functions.get(cnode.callee["usr"])
         loc = f.block_of(cnode)
         if g is None or loc is None:
@@ -804,7 +891,8 @@ def rule_G5(prog, fixture=False):
     case_facts = []
     helpers = []
     for cnode in f.walk():
-        if cnode.k == "CXXMemberCallExpr" and cnode.callee and cnode.callee.get("cls") == f.cls and cnode.callee.get("repo"):
+        if cnode.k in ("CXXMemberCallExpr", "CallExpr") and cnode.callee and cnode.callee.get("cls") == f.cls and cnode.callee.get("repo") \
+                and (cnode.k == "CXXMemberCallExpr" or cnode.callee.get("static")):
             g = prog.functions.get(cnode.callee["usr"])
             loc = f.block_of(cnode)
             if g is not None and loc is not None and not (f.exit in f.reachable(f.entry, removed_blocks=set(tbk) | {loc[0]}) and loc[0] != f.entry):
